@@ -50,7 +50,8 @@ def draw_cfg(rng, profile, tier):
         'ctrl_md': int(rng.random() < p.get('ctrl_md', 0.0)),
         'pool': rng.choice(p.get('pools', [2, 3, 4, 6, 6])),
         'len': rng.choice(p.get('lens', [6, 10, 16, 24, 40, 60])),
-        'maxdim': rng.choice([2, 3, 3, 4, 5, 6] if not big else [6, 8, 12]),
+        'maxdim': rng.choice(p.get('maxdims', [2, 3, 3, 4, 5, 6])
+                             if not big else [6, 8, 12, 14]),
         'readers': int(rng.random() < p.get('p_readers', 0.6)),
         'faults': rng.choice(p.get('faults', ['none', 'none', 'F1', 'F2',
                                               'all'])),
@@ -170,7 +171,9 @@ class Gen:
 
     def _unk(self):
         f = self.cfg['faults']
-        return int(f in ('F2', 'all') and self.rng.random() < 0.12)
+        if f in ('F2', 'all') and self.rng.random() < 0.12:
+            return self.rng.randrange(1, 40)      # which look-alike id
+        return 0
 
     def _mask(self, n, nonempty=True):
         m = self.rng.randrange(1 if nonempty else 0, 1 << n)
